@@ -1,6 +1,6 @@
 //! C13 — a sighash cache answers every query as a fresh one would, in any order.
 use elements::sighash::SighashCache;
-use elements::SchnorrSighashType;
+use elements::{SchnorrSighashType, Transaction, TxOut};
 use serde_json::json;
 
 use super::c03::{self, Answer, PrevMode, Query};
@@ -11,6 +11,7 @@ fn same(a: &Answer, b: &Answer) -> bool {
     match (a, b) {
         (Answer::Digest(x), Answer::Digest(y)) => x == y,
         (Answer::Err(_), Answer::Err(_)) => true,
+        (Answer::Skipped(_), Answer::Skipped(_)) => true,
         _ => false,
     }
 }
@@ -34,8 +35,10 @@ fn histories(t: &mut Tape, ctx: &mut Ctx) -> R {
                 let i = t.below(model_tx.input.len() + 1);
                 let push = t.bool();
                 let item = t.bytes(3);
-                let got = guard::guard("witness_mut", 0, || match cache.witness_mut(i) {
-                    Some(w) => {
+                let in_range = i < model_tx.input.len();
+                let got = match guard::guard("witness_mut", 0, || match cache.witness_mut(i) {
+                    // beyond the inputs there is no witness to fill: whatever comes back is left alone
+                    Some(w) if in_range => {
                         if push {
                             w.push(item.clone())
                         } else {
@@ -43,10 +46,24 @@ fn histories(t: &mut Tape, ctx: &mut Ctx) -> R {
                         }
                         true
                     }
+                    Some(_) => true,
                     None => false,
-                })?;
-                ensure!(got == (i < model_tx.input.len()), "witness_mut({}) returned {} for {} inputs", i, if got { "Some" } else { "None" }, model_tx.input.len());
-                if got {
+                }) {
+                    Ok(g) => g,
+                    Err(f) if !in_range => {
+                        // the statement says nothing about an index beyond the inputs
+                        let _ = f;
+                        ctx.class("not-stated:witness_mut-beyond-inputs-panics");
+                        false
+                    }
+                    Err(f) => return Err(f),
+                };
+                if in_range {
+                    ensure!(got, "witness_mut({}) returned None for {} inputs: the witness cannot be filled in through the cache", i, model_tx.input.len());
+                } else {
+                    ctx.class(if got { "not-stated:witness_mut-beyond-inputs-some" } else { "witness_mut:beyond-inputs-none" });
+                }
+                if got && in_range {
                     let w = &mut model_tx.input[i].witness.script_witness;
                     if push {
                         w.push(item)
@@ -98,6 +115,12 @@ fn histories(t: &mut Tape, ctx: &mut Ctx) -> R {
             _ => {
                 let mcase = c03::Case { tx: model_tx.clone(), spent: spent.clone() };
                 let q = c03::gen_query(t, &mcase, true);
+                if c03::unstated(&q, model_tx.input.len()) {
+                    // outside the quantifier: not put to the shared cache, nothing demanded
+                    c03::observe_unstated(&model_tx, &spent, &q, ctx);
+                    ctx.class("op:query:not-stated");
+                    continue;
+                }
                 let live = c03::lib_answer(&mut cache, &spent, &q, false)?;
                 let mut fresh_cache = SighashCache::new(&model_tx);
                 let fresh = c03::lib_answer(&mut fresh_cache, &spent, &q, false)?;
@@ -142,17 +165,268 @@ fn histories(t: &mut Tape, ctx: &mut Ctx) -> R {
     Ok(())
 }
 
+/// one query against the shared cache: equal to a fresh cache over the current transaction, and
+/// equal to the C03 reference (digest, error where stated, signing message when requested)
+#[allow(clippy::too_many_arguments)]
+fn ask_both(
+    cache: &mut SighashCache<&mut Transaction>,
+    model_tx: &Transaction,
+    spent: &[TxOut],
+    q: &Query,
+    want_message: bool,
+    step: usize,
+    trace: &[serde_json::Value],
+    ctx: &mut Ctx,
+) -> Result<Answer, Failure> {
+    let live = c03::lib_answer_ord(cache, spent, q, want_message, true)?;
+    let mut fresh_cache = SighashCache::new(model_tx);
+    let fresh = c03::lib_answer(&mut fresh_cache, spent, q, false)?;
+    ctx.eval();
+    if !same(&live.0, &fresh.0) {
+        return Err(Failure::new(format!(
+            "step {}: the shared cache answers {:?} but a fresh cache answers {:?}\n query={}\n history={}",
+            step,
+            live.0,
+            fresh.0,
+            q.render(),
+            serde_json::Value::Array(trace.to_vec())
+        )));
+    }
+    if let Err(mut f) = c03::compare(model_tx, spent, q, &live, ctx) {
+        f.msg = clip(format!("step {} on the shared cache: {}\n history={}", step, f.msg, serde_json::Value::Array(trace.to_vec())));
+        return Err(f);
+    }
+    Ok(live.0)
+}
+
+fn with_prev(q: &Query, p: PrevMode) -> Query {
+    match q {
+        Query::Taproot { idx, ty, annex, leaf, api, genesis, .. } => {
+            Query::Taproot { idx: *idx, ty: *ty, annex: annex.clone(), leaf: leaf.clone(), prev: p, api: api.clone(), genesis: *genesis }
+        }
+        other => other.clone(),
+    }
+}
+fn with_idx(q: &Query, i: usize) -> Query {
+    let mut q = q.clone();
+    match &mut q {
+        Query::Legacy { idx, .. } | Query::Segwit { idx, .. } | Query::Taproot { idx, .. } => *idx = i,
+    }
+    q
+}
+
+/// Histories over the extended generators of C03 (`gen_case_x` / `gen_query_x`) with operations the
+/// plain histories lack: an earlier query repeated verbatim or with the other `Prevouts` kind, probes
+/// in tape-chosen order (One->All, All->One, One->All->One, All->One of another input) that reuse the
+/// annex / leaf / genesis / API of the previous taproot query, `witness_mut` aimed at the input the
+/// next query signs (also 253 items at once), and the signing-message entry points on the shared cache.
+fn histories_x(t: &mut Tape, ctx: &mut Ctx) -> R {
+    let case = c03::gen_case_x(t);
+    let mut live_tx = case.tx.clone();
+    let mut model_tx = case.tx.clone();
+    let spent = case.spent.clone();
+    let n = model_tx.input.len();
+    let mut cache = SighashCache::new(&mut live_tx);
+    let nops = 2 + t.below(15);
+    let mut kinds_seen: Vec<&'static str> = Vec::new();
+    let mut witness_between = false;
+    let mut one_query = false;
+    let mut repeated = false;
+    let mut queries = 0usize;
+    let mut trace: Vec<serde_json::Value> = Vec::new();
+    let mut asked: Vec<Query> = Vec::new();
+    let mut aimed: Option<usize> = None;
+    for step in 0..nops {
+        let op = t.below(10);
+        // the queries of this step
+        let mut batch: Vec<Query> = Vec::new();
+        match op {
+            0 | 1 => {
+                let i = t.below(n);
+                let kind = match t.below(16) {
+                    0..=8 => 0,  // push a 3-byte item
+                    9..=12 => 1, // clear
+                    _ => 2,      // 253 one-byte items: the witness stack count crosses the compact-size boundary
+                };
+                let item = t.bytes(3);
+                let aim = t.bool();
+                let got = guard::guard("witness_mut", 0, || match cache.witness_mut(i) {
+                    Some(w) => {
+                        match kind {
+                            0 => w.push(item.clone()),
+                            1 => w.clear(),
+                            _ => w.extend((0..253).map(|k| vec![item[0].wrapping_add(k as u8)])),
+                        }
+                        true
+                    }
+                    None => false,
+                })?;
+                ensure!(got, "witness_mut({}) returned None for {} inputs: the witness cannot be filled in through the cache", i, n);
+                let w = &mut model_tx.input[i].witness.script_witness;
+                match kind {
+                    0 => w.push(item.clone()),
+                    1 => w.clear(),
+                    _ => w.extend((0..253).map(|k| vec![item[0].wrapping_add(k as u8)])),
+                }
+                if queries > 0 {
+                    witness_between = true;
+                }
+                if aim {
+                    aimed = Some(i);
+                }
+                let kind_name = ["push", "clear", "push-253"][kind];
+                trace.push(json!({"witness_mut": i, "kind": kind_name, "next-query-signs-it": aim}));
+                ctx.class(&format!("op:witness_mut:{}", kind_name));
+                if model_tx.input[i].asset_issuance != elements::AssetIssuance::null() {
+                    ctx.class("op:witness_mut:on-issuance-input");
+                }
+                continue;
+            }
+            2 | 3 => {
+                // probe: the same question with different Prevouts kinds, in a tape-chosen order
+                let ty = t.choose(&c03::SCHNORR_TYPES);
+                let idx = aimed.take().unwrap_or_else(|| t.below(n));
+                let reuse = t.bool();
+                let last_tap = asked.iter().rev().find(|q| matches!(q, Query::Taproot { .. }));
+                let proto = match (reuse, last_tap) {
+                    (true, Some(Query::Taproot { annex, leaf, api, genesis, .. })) => {
+                        ctx.class("op:probe:reuses-previous-parameters");
+                        Query::Taproot { idx, ty, annex: annex.clone(), leaf: leaf.clone(), prev: PrevMode::All, api: api.clone(), genesis: *genesis }
+                    }
+                    _ => Query::Taproot { idx, ty, annex: None, leaf: None, prev: PrevMode::All, api: c03::TapApi::Generic, genesis: [7; 32] },
+                };
+                let order: &[PrevMode] = match t.below(5) {
+                    0 => &[PrevMode::One, PrevMode::All],
+                    1 => &[PrevMode::All, PrevMode::One],
+                    2 => &[PrevMode::One, PrevMode::All, PrevMode::One],
+                    3 => &[PrevMode::All, PrevMode::OneWrongIndex],
+                    _ => &[PrevMode::All, PrevMode::One, PrevMode::All],
+                };
+                for p in order {
+                    batch.push(with_prev(&proto, p.clone()));
+                }
+                ctx.class(&format!("op:probe:{}", order.iter().map(|p| format!("{:?}", p)).collect::<Vec<_>>().join(">")));
+                ctx.class(&format!("op:probe:{}", if (ty as u8) & 0x80 != 0 { "anyonecanpay" } else { "needs-all" }));
+                one_query = true;
+            }
+            4 if !asked.is_empty() => {
+                // an earlier query again: verbatim, or with the other Prevouts kind
+                let q = asked[t.below(asked.len())].clone();
+                let q = match (&q, t.below(3)) {
+                    (Query::Taproot { prev, .. }, 1 | 2) => {
+                        let other = if *prev == PrevMode::All { PrevMode::One } else { PrevMode::All };
+                        ctx.class(&format!("op:repeat:{:?}-then-{:?}", prev, other));
+                        one_query = true;
+                        with_prev(&q, other)
+                    }
+                    _ => {
+                        ctx.class("op:repeat:verbatim");
+                        q
+                    }
+                };
+                aimed = None;
+                repeated = true;
+                batch.push(q);
+            }
+            _ => {
+                let mut q = c03::gen_query_x(t, n, true);
+                if let Some(i) = aimed.take() {
+                    if q.idx() < n {
+                        q = with_idx(&q, i);
+                        ctx.class("op:query:signs-the-input-just-filled");
+                    }
+                }
+                batch.push(q);
+            }
+        }
+        let mut answers: Vec<Answer> = Vec::new();
+        for q in &batch {
+            let want_message = t.chance(64);
+            if c03::unstated(q, n) {
+                // outside the quantifier: not put to the shared cache, nothing demanded
+                c03::observe_unstated(&model_tx, &spent, q, ctx);
+                ctx.class("op:query:not-stated");
+                answers.push(Answer::Skipped("not stated".into()));
+                continue;
+            }
+            trace.push(q.render());
+            let a = ask_both(&mut cache, &model_tx, &spent, q, want_message, step, &trace, ctx)?;
+            if want_message {
+                ctx.class("x:signing-message-from-shared-cache");
+            }
+            c03::class_x(&model_tx, &spent, q, ctx);
+            if let Query::Taproot { prev: PrevMode::One, .. } = q {
+                one_query = true;
+            }
+            if !kinds_seen.contains(&q.kind()) {
+                kinds_seen.push(q.kind());
+            }
+            queries += 1;
+            ctx.class(&format!("op:query:{}", q.kind()));
+            answers.push(a);
+            asked.push(q.clone());
+        }
+        // C13, second sentence, stated directly on the probe's answers (compare() has already matched
+        // each of them against the reference): under ANYONECANPAY One and All give the same digest
+        if matches!(op, 2 | 3) {
+            if let Some(Query::Taproot { ty, .. }) = batch.first() {
+                if (*ty as u8) & 0x80 != 0 {
+                    let digests: Vec<&Answer> = batch
+                        .iter()
+                        .zip(&answers)
+                        .filter(|(q, _)| matches!(q, Query::Taproot { prev: PrevMode::All | PrevMode::One, .. }) && !c03::unstated(q, n))
+                        .map(|(_, a)| a)
+                        .collect();
+                    for w in digests.windows(2) {
+                        ensure!(same(w[0], w[1]), "taproot {}: Prevouts::One and Prevouts::All answer differently in one probe: {:?} vs {:?} (step {})", ty, w[0], w[1], step);
+                    }
+                }
+            }
+        }
+    }
+    drop(cache);
+    ensure!(live_tx == model_tx, "the transaction behind the cache differs from the model after the history");
+    let nt = (kinds_seen.len() >= 2 && queries >= 3) || witness_between || one_query || repeated;
+    if nt {
+        ctx.nontrivial(&format!("{}", serde_json::Value::Array(trace.clone())));
+    }
+    ctx.class(if nt { "history:non-trivial" } else { "history:trivial" });
+    if witness_between {
+        ctx.class("history:witness_mut-between-queries");
+    }
+    if repeated {
+        ctx.class("history:repeats-a-query");
+    }
+    if ctx.wants_sample("history-x") && nt {
+        ctx.sample("history-x", || json!({"inputs": model_tx.input.len(), "outputs": model_tx.output.len(), "ops": trace}));
+    }
+    Ok(())
+}
+
 pub fn property() -> Property {
     Property {
         id: "C13",
         rule: "histories: a transaction with spent outputs (as C03) and 2..16 operations against ONE SighashCache: queries \
-               (legacy / segwit-v0 / taproot, any index, type, script / leaf / annex, prevouts All or One, also erroneous \
-               ones), witness_mut push/clear (also out of range), and One-vs-All probes for each Schnorr type. Model: a fresh \
-               cache over the current transaction per query; results (digest or error) must be equal at every step and equal \
-               to the C03 reference; ANYONECANPAY types: One == All; other types: One is an error. Non-trivial: >=2 query \
-               kinds with >=3 queries, or a witness_mut between queries, or a One query; distinct by rendered history.",
+               (legacy / segwit-v0 / taproot, any index, type, script / leaf / annex, prevouts All or One), witness_mut \
+               push/clear, and One-vs-All probes for each Schnorr type. Model: a fresh cache over the current transaction \
+               per query; results (digest or error) must be equal at every step and equal to the C03 reference; \
+               ANYONECANPAY types: One == All; other types: One is an error. Queries outside the quantifier (All of the \
+               wrong length, One of another input under ANYONECANPAY, index beyond the inputs) never reach the shared \
+               cache: they go to a throw-away cache and the outcome is only counted (classes not-stated:*); witness_mut \
+               beyond the inputs is issued but nothing is demanded of it. \
+               histories_x: the same model over C03's extended generators (compact-size-boundary lengths and counts, \
+               ScriptPath API, null-valued issuances with entropy, spent outputs with witness) with further operations: an \
+               earlier query repeated verbatim or with the other Prevouts kind; probes in tape-chosen order (One>All, \
+               All>One, One>All>One, All>One-of-another-input, All>One>All) that reuse annex / leaf / genesis / API of the \
+               previous taproot query half of the time; witness_mut (push, clear, 253 items at once) aimed half of the time \
+               at the input the next query signs; the signing message requested from the shared cache for 1/4 of the \
+               queries and compared with the reference message. Non-trivial: >=2 query kinds with >=3 queries, or a \
+               witness_mut between queries, or a One query, or a repeated query; distinct by rendered history.",
         assumptions: &["spent outputs are fixed for a cache (they are a function of the unchanged transaction's inputs)"],
-        subs: vec![Sub { name: "histories", kind: Kind::Tape { max_len: 4000, quick: 225_000, thorough: 2_000_000, f: histories } }],
+        subs: vec![
+            Sub { name: "histories", kind: Kind::Tape { max_len: 4000, quick: 225_000, thorough: 2_000_000, f: histories } },
+            Sub { name: "histories_x", kind: Kind::Tape { max_len: 4000, quick: 50_000, thorough: 1_000_000, f: histories_x } },
+        ],
         known: c03::knowns().into_iter().filter(|k| k.key == c03::KF_ACP_ONE || k.key == c03::KF_LEGACY_SINGLE).collect(),
     }
 }
